@@ -391,6 +391,9 @@ class Tr:
 
     def stmt(self, st, guards):
         self.nstmt += 1
+        if isinstance(st, ast.AnnAssign) and st.value is not None and isinstance(st.target, ast.Name) and st.simple:
+            # `x: T = e` binds exactly like `x = e` (the annotation is not evaluated for its effect)
+            st = ast.copy_location(ast.Assign(targets=[st.target], value=st.value), st)
         g = "[" + ", ".join(guards) + "]"
         if (not self.prefix and not guards and isinstance(st, ast.Assign) and len(st.targets) == 1 and isinstance(st.targets[0], ast.Name)
                 and isinstance(st.value, ast.Call) and any(k.arg == "Fn_poles" for k in st.value.keywords)
@@ -822,6 +825,8 @@ def translate_sources(srcs, classes=None):
             raise Fail(f"{cls}.run is decorated")
         # rp = self.run_params, when this is the only binding of the name in run()
         for st_ in fn.body:
+            if isinstance(st_, ast.AnnAssign) and st_.value is not None and isinstance(st_.target, ast.Name) and st_.simple:
+                st_ = ast.copy_location(ast.Assign(targets=[st_.target], value=st_.value), st_)
             if (
                 isinstance(st_, ast.Assign)
                 and len(st_.targets) == 1
